@@ -121,6 +121,7 @@ func checkC01(p *Prog, res *Result, tier string) {
 	res.rule("C01-R3", "the expected value of each index CAS has an accepted provenance and guard", 4)
 	res.rule("C01-R4", "the tombstone-writing batch is committed only on the false branch of newRevision <= modRevision", 1)
 	res.rule("C01-R5", "no delete / compare-and-delete is reachable from the write entry points (failure leaves the key unchanged)", 4)
+	res.rule("C01-R7", "the index value carries the deletion flag exactly when the version record written with it is the deletion marker (also in the repair write, which re-plays either kind)", 4)
 	res.rule("C01-R6", "every engine evaluates CAS / PutIfNotExist atomically with the write: compare-before-write, one engine commit, memkv lock held from BeginBatchWrite to Commit (C11-R1/R2); the metrics wrapper forwards conditional operations unchanged (C11-R5)", 12)
 
 	// ---- R1 ----
@@ -271,6 +272,112 @@ func checkC01(p *Prog, res *Result, tier string) {
 		}
 	}
 	res.Stats["versioned_batches"] = len(vbs)
+
+	// ---- R7: deletion flag of the index value <=> deletion marker in the version record ----
+	for _, vb := range vbs {
+		if vb.cond == nil {
+			continue
+		}
+		name := vb.b.name()
+		construct := name + ": index value carries the deletion flag exactly when the version record is the deletion marker"
+		V := p.ctxValue(vb.put.Val, vb.ctx)
+		N := p.ctxValue(vb.cond.Val, vb.ctx)
+		pos := p.pos(vb.cond.Call.Pos())
+		// does the function compare the written value with the marker? (the repair write re-plays either kind)
+		var cmp *ssa.Call
+		for _, c := range callsIn(vb.b.Fn) {
+			cc, ok := c.(*ssa.Call)
+			sc := c.Common().StaticCallee()
+			if !ok || sc == nil || sc.Pkg == nil || sc.Pkg.Pkg.Path() != "bytes" || (sc.Name() != "Equal" && sc.Name() != "Compare") {
+				continue
+			}
+			a, b := c.Common().Args[0], c.Common().Args[1]
+			if (ts.is(a) && sameVal(b, V)) || (ts.is(b) && sameVal(a, V)) {
+				cmp = cc
+			}
+		}
+		isMarkerFact := func(cf condFact) bool {
+			if cmp == nil {
+				return false
+			}
+			if cf.Call == cmp && cmp.Common().StaticCallee().Name() == "Equal" {
+				return cf.Want
+			}
+			if cf.X != nil && resolve(cf.X) == ssa.Value(cmp) && isZeroConst(cf.Y) {
+				return (cf.Op == token.EQL && cf.Want) || (cf.Op == token.NEQ && !cf.Want)
+			}
+			return false
+		}
+		switch {
+		case ts.is(V):
+			rb, ok := p.revisionBytesOf(N)
+			switch {
+			case !ok:
+				res.und("C01-R7", construct, pos, "index value not a recognised revision encoding")
+			case rb.Flag && rb.Len != 0:
+				res.ok("C01-R7", construct, pos, "deletion marker with flagged index value")
+			default:
+				res.bad("C01-R7", construct, pos, "the version record written is the deletion marker, but the index value lacks the deletion flag on some path: readers see the key as deleted while every conditional write treats it as live (create refused for ever, update resurrects it)")
+			}
+		case cmp != nil:
+			// dynamic: flagged on the edge(s) on which the value is known to be the marker, and only there
+			ph, isPhi := resolve(N).(*ssa.Phi)
+			good := isPhi
+			if isPhi {
+				nFlag := 0
+				for i, e := range ph.Edges {
+					rb, ok := p.revisionBytesOf(e)
+					if !ok {
+						good = false
+						continue
+					}
+					pred := ph.Block().Preds[i]
+					marker := false
+					for _, cf := range dominatingFacts(pred) {
+						if isMarkerFact(cf) {
+							marker = true
+						}
+					}
+					// the edge from the branch block itself: the fact of that edge
+					if iff := ifOf(pred); iff != nil && !marker {
+						for si := 0; si < 2; si++ {
+							if pred.Succs[si] == ph.Block() {
+								for _, cf := range expandFact(edgeFact(edge{pred, si}), 0) {
+									if isMarkerFact(cf) {
+										marker = true
+									}
+								}
+							}
+						}
+					}
+					if rb.Flag != marker {
+						good = false
+					}
+					if rb.Flag {
+						nFlag++
+					}
+				}
+				if nFlag == 0 {
+					good = false
+				}
+			}
+			if good {
+				res.ok("C01-R7", construct, pos, "the flag is appended on the branch where the re-played value is the deletion marker, and only there")
+			} else {
+				res.bad("C01-R7", construct, pos, "the write re-plays either a value or the deletion marker, but the deletion flag of the index value does not follow the comparison with the marker: a re-played delete leaves an index record that reads as live (or a re-played write one that reads as deleted)")
+			}
+		default:
+			rb, ok := p.revisionBytesOf(N)
+			switch {
+			case !ok:
+				res.und("C01-R7", construct, pos, "index value not a recognised revision encoding")
+			case rb.Flag:
+				res.bad("C01-R7", construct, pos, "a live value is written, but the index value carries the deletion flag: the key reads as deleted for conditional writes")
+			default:
+				res.ok("C01-R7", construct, pos, "live value with unflagged index value")
+			}
+		}
+	}
 
 	// ---- R6: engines evaluate the conditions atomically with the write (C11-R1 / C11-R2) ----
 	sub11 := p.subResult("C11", tier)
